@@ -755,7 +755,7 @@ def finalize(pid, tier, seed, results, t0, *, level='other', explanation='', bou
            '(obligations whose symbolic residual is identically zero need no query: see solver_decided_obligations)',
       solver_decided_obligations=solver_decided,
       samples=stats.samples[:3] or [c for c in clauses[:2]],
-      queries_by_logic=stats.by_logic, solver_time_s=round(stats.time, 3),
+      queries_by_logic=stats.by_logic, solver_time_s=round(stats.time, 3), slowest_queries_s=[list(x) for x in stats.slowest],
       solver_cross_checks=stats.cross[:8], solver_cross_check_count=len(stats.cross),
       functions_encoded=functions,
       bounds=bounds or {},
@@ -784,7 +784,7 @@ def finalize(pid, tier, seed, results, t0, *, level='other', explanation='', bou
   else:
     code = 0
   slow = sorted(((round(r['wall'], 1), r['task']) for r in results), reverse=True)[:3]
-  print('slowest tasks:', slow)
+  print('slowest tasks:', slow, 'slowest queries:', stats.slowest[:3])
   print(f'{pid} [{tier}] obligations={nob} discharged={ndis} queries={stats.total()} solver_s={stats.time:.1f} '
         f'violations={len(new_viol)} known={len(seen)} errors={len(errors)} wall={time.time() - t0:.1f}s -> exit {code}')
   return code
